@@ -535,6 +535,9 @@ fn c04_c08(run: &'static Run, prop: &str) -> i32 {
         let (a, b) = crate::ucichk::c08_text(run);
         s += a;
         t += b;
+        let (a, b) = crate::bbchk::c08(run);
+        s += a;
+        t += b;
     }
     run.require("searches", 1000);
     run.require("info_lines", 1000);
